@@ -732,7 +732,6 @@ func LoadContractFile(path string, trusted bool) (*ContractSet, error) {
 			cs.Sealed = append(cs.Sealed, strings.Fields(rest)...)
 		case "immutable":
 			for _, n := range strings.Fields(rest + " " + joinBody()) {
-				immutableComps[n] = true
 				cs.Immutable = append(cs.Immutable, n)
 			}
 		case "ghost": // ghost $name type   |   ghost Type.$field type
